@@ -75,7 +75,9 @@ func bigOf(v interface{}) *big.Rat {
 
 var i64b = []int64{math.MinInt64, math.MinInt64 + 1, -(1 << 62), -(1 << 53) - 1, -(1 << 32), -(1 << 31) - 1, -(1 << 31), -65536, -32769, -32768, -257, -256, -129, -128, -127, -2, -1, 0, 1, 2, 126, 127, 128, 255, 256, 32767, 32768, 65535, 65536, (1 << 31) - 1, 1 << 31, (1 << 32) - 1, 1 << 32, 1 << 53, (1 << 53) + 1, 1 << 62, math.MaxInt64 - 1, math.MaxInt64}
 var u64b = []uint64{0, 1, 2, 127, 128, 255, 256, 32767, 32768, 65535, 65536, (1 << 31) - 1, 1 << 31, (1 << 32) - 1, 1 << 32, 1 << 53, (1 << 53) + 1, (1 << 63) - 1, 1 << 63, (1 << 63) + 1, math.MaxUint64 - 1, math.MaxUint64}
-var f64b = []float64{-9223372036854775.808, -1e15, -65536.5, -1.5, -1, -0.5, -0.001, math.Copysign(0, -1), 0, 0.001, 0.5, 0.7, 1, 1.5, 2, 100.25, 65536.5, 1e15, 9223372036854775.807}
+var f64b = []float64{-9223372036854775.808, -1e15, -65536.5, -1.5, -1, -0.5, -0.001, math.Copysign(0, -1), 0, 0.001, 0.5, 0.7, 1, 1.5, 2, 100.25, 65536.5, 1e15, 9223372036854775.807,
+	// neighbours closer than any "tolerance": decimal64 has up to 18 fraction digits
+	1e-18, 1e-12, 6e-10, 1.2e-9, 0.5000000004, 0.5000000008, 2.5000000001, 2.5, 6.9999999995, 7}
 var strb = []string{"", " ", "a", "A", "a ", "aa", "ab", "b", "B", "Z", "z", "0", "1", "10", "2", "-1", "é", "e", "世", "\x7f", "~", "a\x00", "a\x00b", "\U0001F600", "￿"}
 var enumIds = []int{math.MinInt32, -100, -2, -1, 0, 1, 2, 3, 7, 100, 65536, math.MaxInt32}
 
@@ -378,6 +380,24 @@ func (p c17) tuples(c *core.Ctx, fs []c17fmt, k int) {
 	c.Eval()
 	if val.EqualVals([]val.Value{val.Int32(1)}, []val.Value{val.Int32(1), val.Int32(2)}) {
 		c.Violate("tuple/equalvals-length", "EqualVals of tuples with different arity is true")
+	}
+	// lexicographic order also between tuples of different length: a proper prefix sorts first
+	one, two := val.Int32(1), val.Int32(2)
+	for _, t := range []struct {
+		a, b []val.Value
+		want int
+	}{
+		{[]val.Value{one}, []val.Value{one, two}, -1}, {[]val.Value{one, two}, []val.Value{one}, 1}, {[]val.Value{two}, []val.Value{one, two}, 1},
+		{[]val.Value{one, two}, []val.Value{two}, -1}, {[]val.Value{}, []val.Value{one}, -1}, {[]val.Value{one}, []val.Value{}, 1}, {[]val.Value{}, []val.Value{}, 0},
+	} {
+		c.Eval()
+		var got int
+		pv, st := core.Try(func() { got = val.CompareVals(t.a, t.b) })
+		if pv != nil {
+			c.Violate("tuple/length/panic", "CompareVals(%v,%v) panicked: %v\n%s", t.a, t.b, pv, core.TrimStack(st))
+		} else if sgn(got) != t.want {
+			c.Violate("tuple/length/lexicographic", "CompareVals(%v,%v)=%d want sign %d", t.a, t.b, got, t.want)
+		}
 	}
 	c.SetSample(fmt.Sprintf("400 random key tuples of arity %d over mixed formats", arity))
 }
